@@ -36,7 +36,9 @@ PROPS = {
               '`an Action node occurs at any depth`, C19) is false, else the expression itself; Operator/Expression::compile emit '
               'the operands in order, each from the buffer state the previous step left, between the opening form and `)`, and '
               'the default print emits exactly `(print-relative-path)`; hence the wrapper encloses the whole expression.',
-        not_decided=['that LiPE\'s (and X (print-relative-path)) prints exactly the files where X holds (runtime semantics of the target)'],
+        not_decided=['that LiPE\'s (and X (print-relative-path)) prints exactly the files where X holds (runtime semantics of the target)',
+                     'which tree a word sequence parses to (precedence.rs: winnow combinators) — covered only by the BOUNDED stand-in BOUNDED.parse_grammar '
+                     '(all word sequences up to length 5/6 over 8 words against a reference reading of the grammar; labelled bounded, not counted as proved)'],
     ),
     'C10': dict(
         level='proof',
@@ -94,10 +96,12 @@ PROPS = {
     'C15': dict(
         level='proof',
         scope='every contract is functional: ids, sharing tables, io_map and the structure of the emitted text are functions of '
-              '(tree, options); compile builds its manager from Default; no verified function reads global state.',
+              '(tree, options); compile builds its manager from Default; no verified function reads global state: one PURE.<fn> obligation per '
+              'verified function (its body is read by the verifier, which rejects statics, thread-locals, interior mutability and I/O; the callees '
+              'outside it are the declared ASSUME/KANI items).',
         not_decided=['parse determinism (combinators)',
-                     'the clock window of time tests: no clock model in the verifier — covered only by the BOUNDED stand-in BOUNDED.clock_window (three '
-                     'time-test compilations more than a second apart in one process; labelled bounded, not counted as proved)'],
+                     'the clock window of time tests: no clock model in the verifier — covered only by the BOUNDED stand-in BOUNDED.clock_window (five '
+                     'time-test compilations more than a second apart in one process, two right after a refused compilation; labelled bounded, not counted as proved)'],
     ),
     'C08': dict(
         level='proof',
